@@ -293,8 +293,10 @@ def rule_fsm_payee(ctx: RuleContext, p: Program, rid: str) -> None:
             raise AnalysisError('FSM-PAYEE: isinstance is not modelled')
 
     n = 0
-    for hp, hn in itertools.product([False, True], repeat=2):
-        s0 = {'raw_string1': ('v', 'P') if hp else None, 'raw_string2': ('v', 'N') if hn else None, 'raw_string0': None}
+    for hp, hn in itertools.product([False, True], [False, True, 'empty']):
+        # narration: absent, some text, or the empty string (which the payee setter itself supplies as a stand-in -- and which a user
+        # may equally have written: it is a value like any other and survives the payee being cleared)
+        s0 = {'raw_string1': ('v', 'P') if hp else None, 'raw_string2': (('v', 'EMPTY') if hn == 'empty' else ('v', 'N')) if hn else None, 'raw_string0': None}
         if hp and not hn:
             continue          # not a parseable / reachable state: a lone string is the narration
         for which in ('raw_payee', 'raw_narration'):
@@ -313,7 +315,7 @@ def rule_fsm_payee(ctx: RuleContext, p: Program, rid: str) -> None:
                 else:
                     want = (old[0], v if v is not None else (('v', 'EMPTY') if old[0] is not None else None))
                 ctx.check(got == want, rid, f'models.transaction:Transaction.{which}[set]',
-                          f'payee={"set" if hp else "-"} narration={"set" if hn else "-"}; {which}:={"None" if v is None else "v"}',
+                          f'payee={"set" if hp else "-"} narration={"empty string" if hn == "empty" else "set" if hn else "-"}; {which}:={"None" if v is None else "v"}',
                           f'from (payee, narration) = {old}, {which} := {v} reads back {got}; the record model with payee-implies-narration '
                           f'requires {want}', tr.where, note=f'{old} -> {got}')
     if n < 12:
